@@ -102,6 +102,20 @@ class Const(Shape):
         return f"Const({self.value!r})"
 
 
+class Custom(Shape):
+    """A value built by a function (st, hint) -> value (object graphs: dicts of lists ...)."""
+
+    def __init__(self, fn, name="custom"):
+        self.fn = fn
+        self.name = name
+
+    def fresh(self, st, hint):
+        return self.fn(st, hint)
+
+    def __repr__(self):
+        return f"Custom({self.name})"
+
+
 class Union(Shape):
     """Entry case split: the parameter has one of several shapes; one obligation family per case."""
 
